@@ -221,6 +221,37 @@ def handle (j : Json) : M Json := do
   | "leak" => do
       let t ← parseTree (← fld j "t"); let I ← parseInterp (← fld j "I")
       pure (Json.mkObj [("t", treeJ (Hist.leak I t))])
+  | "default_prios" => do
+      let t ← parseTree (← fld j "t")
+      pure (Json.mkObj [("prios", Json.arr ((Lex.defaultPrios t).map (fun (i, p) => Json.arr #[Json.str i, ofInt p])).toArray)])
+  | "objective" => do
+      let d ← parseInts (← fld j "dpv"); let u ← parseInts (← fld j "user")
+      pure (Json.mkObj [("w", intsJ (Lex.objective d u))])
+  | "cert_dominates" => do
+      let levs ← parseInts (← fld j "levels"); let ws ← parseInts (← fld j "w")
+      if levs.length != ws.length then throw "levels/w length mismatch"
+      let cs : List Lex.Col := (List.zip levs ws).map (fun (l, w) => ⟨l.toNat, if w < 0 then -w else w, 0⟩)
+      pure (Json.mkObj [("ok", Lex.dominates cs)])
+  | "bridge_solve" => do
+      let t ← parseTree (← fld j "t")
+      let objs ← (← fldArr j "objectives").toList.mapM (fun o => do
+        (← jArr o).toList.mapM (fun x => do
+          let a ← jArr x
+          if a.size != 2 then throw "bad objective entry"
+          pure (← jStr a[0]!, ← jInt a[1]!)))
+      let sol ← match fldOpt j "sol" with | some s => do pure (some (← parseInts s)) | none => pure none
+      let iv ← fldBool j "include_virtual"; let ol ← fldBool j "only_leafs"
+      let cols := Solve.columns t
+      let kvJ : List (String × Int) → Json := fun l => Json.arr (l.map (fun (i, v) => Json.arr #[Json.str i, ofInt v])).toArray
+      pure (Json.mkObj [("cols", Json.arr (cols.map (fun c => Json.arr #[Json.str c.id, c.isLeaf, c.gen])).toArray),
+                        ("objs", Json.arr (objs.map (fun o => intsJ (Solve.objectiveVec cols o))).toArray),
+                        ("solve", kvJ (Solve.solveResult cols sol iv)), ("select", kvJ (Solve.selectResult cols sol ol))])
+  | "add_seq" => do
+      let c ← parseTree (← fld j "cfg")
+      let rs ← (← fldArr j "rules").toList.mapM parseTree
+      match Config.addAll c rs with
+      | some c' => pure (Json.mkObj [("t", treeJ c')])
+      | none => pure (Json.mkObj [("t", Json.null)])
   | "oba" => do
       let xs ← parseInts (← fld j "xs")
       pure (Json.mkObj [("ws", intsJ (Prio.oba xs))])
